@@ -5,4 +5,6 @@ import LasModel.Lemmas.Bits
 import LasModel.Audit.C20
 import LasModel.Audit.C09
 import LasModel.Audit.C10
+import LasModel.Audit.C08
+import LasModel.Model.Date
 import LasModel.Driver.Main
